@@ -397,6 +397,58 @@ func oracle(w *world, res result) [][2]string {
 			}
 		}
 	}
+	// well-formedness (vulnerabilityreport.go): no orphan table entry, no package
+	// key with an empty list, table key = vulnerability id; the enrichment map
+	// exists, is keyed by the kind of an enricher that reported something, and
+	// holds no empty list
+	listed := map[string]bool{}
+	for pk, ids := range vr.PackageVulnerabilities {
+		if len(ids) == 0 {
+			bad("", "package-key-with-empty-list package=%s", pk)
+		}
+		for _, id := range ids {
+			listed[id] = true
+		}
+	}
+	for id, v := range vr.Vulnerabilities {
+		if !listed[id] {
+			bad("", "table-entry-not-listed-under-any-package id=%s", id)
+		}
+		if v != nil && v.ID != id {
+			bad("", "table-key-differs-from-vulnerability-id key=%s id=%s", id, v.ID)
+		}
+	}
+	if vr.Vulnerabilities == nil || vr.PackageVulnerabilities == nil {
+		bad("", "report-with-a-nil-table")
+	}
+	if enriched {
+		if vr.Enrichments == nil {
+			bad("", "report-without-enrichment-map")
+		}
+		kinds := map[string]bool{}
+		for i, e := range sc.enrichers {
+			if !e.fail && len(e.msgs) > 0 && (w.enrichRan[i] || sc.cancelAtEnricher == 0) {
+				kinds[strconv.Itoa(e.kind)] = true
+			}
+		}
+		for k, ms := range vr.Enrichments {
+			if !kinds[k] {
+				bad("", "enrichment-key-is-not-the-kind-of-an-enricher-that-reported kind=%s", k)
+			}
+			if len(ms) == 0 {
+				bad("", "enrichment-key-with-empty-list kind=%s", k)
+			}
+		}
+		if sc.cancelAtEnricher == 0 {
+			for k := range kinds {
+				if _, ok := vr.Enrichments[k]; !ok {
+					bad("", "enrichment-kind-missing kind=%s", k)
+				}
+			}
+		}
+	} else if vr.Enrichments != nil {
+		bad("", "Match-returned-enrichments")
+	}
 	// exact union of what the matchers accepted
 	want := map[int]map[int]bool{}
 	wantV := map[int]bool{}
